@@ -980,7 +980,6 @@ def collDispatch (op : CollOp) (sel : Selector) (b : Binding)
     (loop : List (List LocalVar) → Out) : GetValue → Out
   | .error => .err false
   | .unmodelled => .unmodelled
-  | .panic => .panic
   | .absent => .val (op == .all)
   | .present (some (.map _ kt _ _ es)) =>
     if kt != GoType.stringT then .err false
@@ -999,7 +998,6 @@ theorem evaluate_coll (op : CollOp) (sel : Selector) (b : Binding) (inner : Expr
   cases getValue o d sel.path with
   | error => rfl
   | unmodelled => rfl
-  | panic => rfl
   | absent => rfl
   | present v =>
     cases v with
@@ -1016,7 +1014,6 @@ theorem collDispatch_congr (op : CollOp) (sel sel' : Selector) (b : Binding)
   cases gv with
   | error => rfl
   | unmodelled => rfl
-  | panic => rfl
   | absent => rfl
   | present v =>
     cases v with
